@@ -5,6 +5,7 @@ package main
 // validator updates fed to a real CometBFT ValidatorSet.
 
 import (
+	evidencetypes "github.com/KiraCore/sekai/x/evidence/types"
 	"crypto/sha256"
 	"encoding/hex"
 
@@ -50,6 +51,9 @@ type stakeEp struct {
 	endErr   string // CometBFT's reason when it rejected the updates of the last block
 	// double-sign evidence delivered with the NEXT block (RequestBeginBlock.ByzantineValidators); consumed by block()
 	ev []evOp
+	// validators a USER accuses in the next block with a MsgSubmitEvidence of its own making (the application registers no
+	// evidence route: only evidence the consensus engine delivers with BeginBlock counts); consumed by block()
+	userEv []int
 }
 
 // evOp: one piece of equivocation evidence. age 0 = fresh, 1 = older than the max age DURATION only (still valid: both
@@ -243,6 +247,32 @@ func (e *stakeEp) block(absent map[int]bool, mid []stakeOp, txs []stakeOp, dt ti
 		txBytes = append(txBytes, w.MustSign(msgs, e.acc(txs[i].v), ukex(5000)))
 		i = j
 	}
+	// a user-made equivocation claim against a validator, signed by the sudo account (index n): must be refused
+	userEv := e.userEv
+	e.userEv = nil
+	userEvTx := -1
+	if len(userEv) > 0 {
+		var msgs []sdk.Msg
+		for _, v := range userEv {
+			var ca sdk.ConsAddress
+			if v < e.n {
+				ca = sdk.ConsAddress(w.valPriv[v].PubKey().Address())
+			} else if a, ok := e.cons[v]; ok {
+				ca = sdk.ConsAddress(a)
+			} else {
+				continue
+			}
+			em, err := evidencetypes.NewMsgSubmitEvidence(w.addrs[e.n], &evidencetypes.Equivocation{Height: w.height, Time: w.now, Power: 1, ConsensusAddress: ca.String()})
+			if err != nil {
+				panic(err)
+			}
+			msgs = append(msgs, em)
+		}
+		if len(msgs) > 0 {
+			userEvTx = len(txBytes)
+			txBytes = append(txBytes, w.MustSign(msgs, e.n, ukex(5000)))
+		}
+	}
 	type midRes struct {
 		op  stakeOp
 		out string
@@ -431,6 +461,12 @@ func (e *stakeEp) block(absent map[int]bool, mid []stakeOp, txs []stakeOp, dt ti
 			r.Fail("C15/activate/before-inactive-until", fmt.Sprintf("%s: validator %d re-activated at t=%d, inactive until %d", e.label, t.v, nowNext, inactiveUntil[t.v]), nil)
 		}
 		r.Case(fmt.Sprintf("%s/%d/%s/%d/%s", e.label, w.height, t.kind, t.v, out), out == "ok")
+	}
+	if userEvTx >= 0 && userEvTx < len(br.Results) {
+		r.Count(fmt.Sprintf("user-evidence:code-zero=%v", br.Results[userEvTx].Code == 0))
+		if br.Results[userEvTx].Code == 0 {
+			r.Fail("C15/evidence/user-submitted-accepted", fmt.Sprintf("%s: a MsgSubmitEvidence made up by a user against validators %v was accepted in block %d", e.label, userEv, w.height), nil)
+		}
 	}
 	if br.Panicked != nil {
 		r.Op("stake end", "panic")
@@ -914,6 +950,9 @@ func runStake(r *Rec, prop string) {
 					txs = append(txs, stakeOp{wrong[r.Rng.Intn(len(wrong))], v})
 					touched[v] = true
 				}
+			}
+			if r.Rng.Intn(8) == 0 { // a user accuses a validator of double signing with a message of its own making: refused
+				e.userEv = append(e.userEv, r.Rng.Intn(e.m))
 			}
 			if r.Rng.Intn(10) == 0 { // evidence naming a consensus key nobody owns: ignored
 				e.ev = append(e.ev, evOp{v: r.Rng.Intn(e.n), unknown: true})
